@@ -91,8 +91,8 @@ def build(tier, seed):
             specs.append(KSpec("O12.6 %s p%d" % ("f64" if dbl else "f32", p), MOD + name,
                                "phase %d, two values, all bit patterns" % p, "floats bit-exact through write/unpack", timeout=900,
                                allow_unsat_covers=("!DOUBLE",) if dbl else ("DOUBLE && d[0]",)))
-    specs.append(KSpec("O12.5 extract any width", MOD + "c12_o5_unpack_any_range", "all min<max (width symbolic), all 9 stream bytes",
-                       "extract(width) returns the SPEC-bits of the first two values", timeout=1200))
+    specs.append(KSpec("O12.5 extract any width", MOD + "c12_o5_unpack_any_range", "all min<max (width symbolic), all 8 start phases, all 9 stream bytes",
+                       "extract(width) at bit phase p returns the SPEC-bits of the value (and of a second one when it fits)", timeout=1200))
     return "\n".join(lines), specs
 
 
